@@ -166,6 +166,7 @@ type srvState struct {
 	TG       int      `json:"tg"`
 	Which    string   `json:"tg_which"`
 	Gate     *gateObs `json:"gate"`
+	Stacks   string   `json:"tg_stacks"`
 }
 
 // gateObs is what the gate writer of c12srv/gate.go saw (Mechanism A).
@@ -176,8 +177,10 @@ type gateObs struct {
 	Met         bool     `json:"met"`
 }
 
-func (c *child) state(id string) (*srvState, error) {
-	resp, err := ctl.Get("http://" + c.addr + "/ctl/state?id=" + url.QueryEscape(id))
+func (c *child) state(id string) (*srvState, error) { return c.stateX(id, "") }
+
+func (c *child) stateX(id, extra string) (*srvState, error) {
+	resp, err := ctl.Get("http://" + c.addr + "/ctl/state?id=" + url.QueryEscape(id) + extra)
 	if err != nil {
 		return nil, err
 	}
@@ -392,8 +395,17 @@ func (c *child) run(s *Scenario) {
 				s.direct(s.Kind+":handler-did-not-return", fmt.Sprintf("60 s after the client finished reading (cut_at=%d) the transport's Do has not returned; goroutines: %s", s.CutAt, st.Which))
 			} else if st.TG > c.leaked {
 				s.Lingering = st.Which
+				stacks := ""
+				if sx, err := c.stateX(s.ID, "&stacks=1"); err == nil {
+					stacks = sx.Stacks
+				}
 				if c.leaks < 2 {
-					s.direct(s.Kind+":goroutine-left-behind", fmt.Sprintf("60 s after the handler returned %d transport goroutine(s) are still alive: %s", st.TG, st.Which))
+					key := s.Kind + ":goroutine-left-behind"
+					if s.ka() && strings.Contains(stacks, "(*sseConnection).keepAlive") && strings.Contains(stacks, "(*sseConnection).flush") && strings.Contains(stacks, "sync.(*Mutex).Lock") {
+						// keepAlive parked on sseConnection.mu for good: the handler goroutine left it locked
+						key = keyStuck
+					}
+					s.direct(key, fmt.Sprintf("60 s after the handler returned %d transport goroutine(s) are still alive: %s\n%s", st.TG, st.Which, stacks))
 				}
 				c.leaked = st.TG
 				c.leaks++
